@@ -9,15 +9,15 @@ from sim import run_scenario
 from .base import Result, V
 from . import simcommon as SC
 
-MODULES = ["TickitModel.Props.C07"]
-THEOREMS = []
+MODULES = ['TickitModel.Props.C07', 'TickitModel.Props.C12']
+THEOREMS = ['minv_init', 'minv_step', 'no_interrupt_lost', 'not_displaced', 'next_tick_not_after_stamp', 'served_as_root', 'tick_ends_after_roots', 'owed_cleared_only_by_update', 'interrupts_coalesce', 'displaced_without_record', 'interrupt_due_now', 'stamp_law', 'late_immediate']
 ANCHORS = ["src/tickit/core/management/schedulers/master.py", "src/tickit/core/management/schedulers/base.py",
            "src/tickit/core/management/schedulers/nested.py", "src/tickit/core/components/system_component.py",
            "src/tickit/core/components/component.py"]
-TECHNIQUE = "Lean 4 transition-system model of the master loop with interrupts arriving at any point + exhaustive sweep of the injection step on the real code"
-LEVEL_TEXT = "see DESIGN.md"
-LEVEL_NOTE = "see DESIGN.md"
-ASSUMPTIONS = []
+TECHNIQUE = "Lean 4 theorems over a transition system of the master's bookkeeping in which interrupts arrive at any point (invariant: nothing owed is forgotten or displaced; next tick not after the stamp; served as root; coalescing) + exhaustive sweep of the injection step on the real code and differential run of the real bookkeeping against the model"
+LEVEL_TEXT = "Theorems over the master-bookkeeping transition system (wakeups + pending-interrupt stamps; actions interrupt / answer / tick start / update begins / tick end in ANY order): an owed component is always either a not-yet-updated root of the running tick or holds a wakeup no later than its interrupt stamp - whatever callbacks its answers request (the pre-repair behaviour is shown to violate this); when idle the next tick is not after the stamp, which by the C12 theorems is due at once (no sleeping for an unrelated callback); the component is a root of that tick and a tick cannot end before its roots began their update; interrupts of one component coalesce. PARTIAL: the real-time bound 'at most the duration of the tick in progress' and nested queues (NestedScheduler.interrupts) are validated, not proved: ONE interrupt is injected at EVERY event-loop step from the master's first tick start to the end of a baseline run, for every device at every depth of 4 configurations with processing costs (plus simultaneous sets), on the real asyncio schedule; a monitor checks a later update exists within the bound; the real MasterScheduler's schedule_interrupt/add_wakeup/_do_tick are run against the model on random action sequences."
+LEVEL_NOTE = 'Trusts: Lean kernel; hand-written bookkeeping transition system (tied by differential run); event-loop steps are those of the harness loop on the synchronous bus; calls the private _do_tick with a stub ticker.'
+ASSUMPTIONS = ['interrupts are raised once the master has begun its initial tick (earlier ones: C13)']
 
 
 def dev(n, ins=None, cb=None, cost=0, outs=("o",)):
@@ -69,9 +69,110 @@ def stop_when_served(n_extra_ticks, n_stims=1):
     return f
 
 
+def master_diff(rng, n, drv, res):
+    """the real MasterScheduler's bookkeeping (schedule_interrupt / add_wakeup / _do_tick) against
+    the Lean transition system Core/Master.lean, on random action sequences"""
+    import asyncio
+    import time as _time
+    from tickit.core.management.event_router import InverseWiring
+    from tickit.core.management.schedulers import master as master_mod
+    from tickit.core.management.schedulers.master import MasterScheduler
+    from vloop import run_virtual
+    cases, reals = [], []
+    for _ in range(n):
+        acts = []
+        for _ in range(rng.randrange(2, 12)):
+            r = rng.random()
+            c = rng.choice(("a", "b", "s"))
+            if r < 0.35:
+                acts.append({"a": "interrupt", "c": c, "dt": rng.choice((0, 1000, 250_000))})
+            elif r < 0.7:
+                acts.append({"a": "output", "c": c, "call_at": rng.choice((None, 1_000_000, 5_000_000, 2_000_000))})
+            else:
+                acts.append({"a": "start"})
+        out = []
+
+        async def main(loop, acts=acts, out=out):
+            ticks = []
+
+            class StubTicker:
+                time = 0
+                components = {"a", "b", "s"}
+                finished = asyncio.Event()
+
+                async def __call__(self, when, roots):
+                    self.time = when
+                    ticks.append((int(when), sorted(roots)))
+
+            sched = MasterScheduler(InverseWiring({}), object, object)
+            sched.ticker = StubTicker()
+            sched.new_wakeup = asyncio.Event()
+            await sched._do_initial_tick()
+            t_sim = 0
+            for a in acts:
+                if a["a"] == "interrupt":
+                    loop.advance(a["dt"])
+                    await sched.schedule_interrupt(a["c"])
+                    a["stamp"] = int(sched.ticker.time + (loop.now_ns() - sched.last_time))
+                    out.append({"wake": sorted([k, int(v)] for k, v in sched.wakeups.items())})
+                elif a["a"] == "output":
+                    if a["call_at"] is not None:
+                        a["call_at"] = int(sched.ticker.time) + a["call_at"]
+                        sched.add_wakeup(a["c"], a["call_at"])
+                    out.append({"wake": sorted([k, int(v)] for k, v in sched.wakeups.items())})
+                else:
+                    if not sched.wakeups:
+                        out.append({"enabled": False})
+                        continue
+                    n0 = len(ticks)
+                    await sched._do_tick()
+                    while len(ticks) == n0:   # pre-empted by its own new_wakeup flag: try again
+                        await sched._do_tick()
+                    out.append({"wake": sorted([k, int(v)] for k, v in sched.wakeups.items()), "time": ticks[-1][0], "roots": ticks[-1][1]})
+            return True
+        r, _ = run_virtual(main)
+        if r[0] != "ok":
+            res.violate(V("master-bookkeeping-crashed", str(r), site="MasterScheduler"), {"acts": acts})
+            continue
+        cases.append({"op": "master", "acts": [dict(a, **({"a": "start"} if a["a"] == "start" else {})) for a in acts]})
+        reals.append(out)
+    for c, real, rep in zip(cases, reals, drv.eval(cases)):
+        res.case(str(c), nontrivial=len(c["acts"]) > 2)
+        res.count("master-bookkeeping-seqs")
+        # after a modelled startTick the model waits for beginUpdate/endTick; the stub tick ends at once
+        # so we replay with explicit update+end actions
+        acts2 = []
+        for a in c["acts"]:
+            acts2.append(a)
+        # compare step by step using a fresh expanded request
+        exp_req = {"op": "master", "acts": []}
+        idx = []
+        for a, r in zip(c["acts"], real):
+            exp_req["acts"].append(a)
+            idx.append(len(exp_req["acts"]) - 1)
+            if a["a"] == "start" and r.get("enabled", True):
+                for root in r["roots"]:
+                    exp_req["acts"].append({"a": "update", "c": root})
+                exp_req["acts"].append({"a": "end"})
+        rep2 = drv.eval([exp_req])[0]
+        for k, (a, r) in enumerate(zip(c["acts"], real)):
+            m = rep2[idx[k]]
+            if a["a"] == "start":
+                if r.get("enabled", True) != m["enabled"]:
+                    res.diverge(f"master bookkeeping step {k}: tick enabled impl {r.get('enabled', True)} model {m['enabled']}", c)
+                    break
+                if m["enabled"] and (r["time"] != m["time"] or r["roots"] != m["roots"] or r["wake"] != m["wake"]):
+                    res.diverge(f"master bookkeeping step {k}: impl tick {r} model {m}", c)
+                    break
+            elif r["wake"] != m["wake"]:
+                res.diverge(f"master bookkeeping step {k} ({a}): impl wakeups {r['wake']} model {m['wake']}", c)
+                break
+
+
 def run(tier, seed, drv):
     res = Result()
     rng = random.Random(seed)
+    master_diff(random.Random(seed + 3), 150 if tier == "quick" else 2000, drv, res)
     for si, scn in enumerate(base_scenarios(rng, tier)):
         base = run_scenario(scn, bus="sync")
         tid = monitors.master_tid(base)
